@@ -321,6 +321,22 @@ static void runC14orC48(const char* prop) {
       s.maxThreads = mts[r.below(8)];
     }
     s.dwellUs = static_cast<int>(r.range(50, 250));
+    // C48 only: an explicit chunk size on a range no larger than the pool (+ the caller) takes its own
+    // branch of the thread-count computation; long dwells so that every allowed body overlaps
+    bool smallExplicit = false;
+    if (!is14 && s.pool >= 2 && r.chance(0.12)) {
+      smallExplicit = true;
+      s.chunking = 2;
+      s.api = static_cast<int>(r.below(2));
+      s.minItems = 1;
+      s.gran = 1;
+      size = r.range(2, s.pool + (s.wait ? 1 : 0));
+      s.end = s.start + size;
+      s.chunk = r.chance(0.7) ? 1 : 2;
+      long mts[] = {0, 1, 2, 3};
+      s.maxThreads = mts[r.below(4)];
+      s.dwellUs = static_cast<int>(r.range(800, 2000));
+    }
     bool tail = s.gran > 1 && s.chunking != 2 && (size % s.gran) != 0 && size > static_cast<long>(s.gran);
     const char* ck[] = {"static", "adaptive", "explicit"};
     const char* cont[] = {"vector", "deque", "list"};
@@ -341,6 +357,7 @@ static void runC14orC48(const char* prop) {
     if (o.maxInflight >= 2) cls.push_back("concurrent-bodies");
     if (!is14 && o.maxInflight == bound && bound >= 2) cls.push_back("bound-reached");
     if (!is14 && (s.maxThreads == 0 || s.maxThreads == 1)) cls.push_back("serial-requested");
+    if (smallExplicit) cls.push_back("explicit-small-range");
     bool nt = o.chunks >= 2 && (is14 ? true : true);
     vrt::caseEnd(J().kv("chunks", o.chunks).kv("maxInflight", o.maxInflight).kv("bound", bound).kv("overlaps", o.overlaps), nt ? s.sig() : "", cls);
   }
